@@ -3,6 +3,7 @@
 from __future__ import annotations
 
 import ast
+import re as _re
 
 from ..core import expand_locals, single_defs, AnalysisError, Check, Scope, dotted, norm, strip_docstring, walk_no_nested
 from ..variants import Variant
@@ -362,6 +363,37 @@ class C09(Check):
 
         probs = []
         unknown = False
+
+        def unalias(t):
+            # a copy bound to another name (`row_model = copy.deepcopy(model)`) is substituted by its creation expression: read it as the model
+            return t.replace("copy.deepcopy(model)", "model").replace("deepcopy(model)", "model") if isinstance(t, str) else t
+
+        from ..interp import Sym as _Sym
+
+        paths = [_Sym(st.env, tuple((unalias(c), v) for c, v in st.conds), tuple(tuple(unalias(x) for x in e) for e in st.events)) for st in paths]
+
+        def staged_selection(st, txt, containers):
+            """`model.update_x(D)` with D a dict filled in a loop over the row: every store is `D[key] = value` of the row under the test
+            `key in <container>`, and a key that passes the test is stored."""
+            m_ = _re.match(r"^model\.update_\w+\((\w+)\)$", txt)
+            if not m_:
+                return None
+            d_ = m_.group(1)
+            if not any(e[0] == "new" and e[1] == d_ and e[2] in ("{}", "dict()") for e in st.events):
+                return None
+            stores = [e for e in st.events if e[0] == "store" and e[1].startswith(f"{d_}[")]
+            member = {c: v for c, v in st.conds if any(c.endswith(f" in {cont}") for cont in containers)}
+            for e in stores:
+                key = e[1][len(d_) + 1:-1]
+                if not (key.startswith("KEY(") and row in key and e[2] == key.replace("KEY(", "VALUE(", 1)):
+                    return False
+                if not any(c.startswith(key + " in ") and v for c, v in member.items()):
+                    return False
+            for c, v in member.items():
+                if v and not any(c.startswith(e[1][len(d_) + 1:-1] + " in ") for e in stores):
+                    return False
+            return True
+
         for st in paths:
             calls = [e[1] for e in st.events if e[0] == "call"]
             ret = [e[1] for e in st.events if e[0] == "return"]
@@ -374,6 +406,8 @@ class C09(Check):
                     probs.append(f"the row's {what} are written {len(lst)} times")
                     continue
                 sel = selection(lst[0], cont)
+                if sel is None:
+                    sel = staged_selection(st, lst[0], cont)
                 if sel is None:
                     unknown = True
                 elif sel is False:
